@@ -366,6 +366,7 @@ def main(prop_modules):
     ap.add_argument('--replay')
     a = ap.parse_args()
     seed = int(os.environ.get('VERIF_SEED', '0') or 0)
+    os.environ['VERIF_TIER'] = a.tier
     mod = prop_modules(a.prop)
     if a.replay:
         sys.exit(mod.replay_file(a.replay))
